@@ -18,7 +18,7 @@ ID = "C13"
 LEVEL = "exploration"
 EXHAUSTIVE = True
 KINDS = ("numpy", "bytearray")
-GROUPS = ("from_buffer", "from_native", "copy_to_native", "extract", "views", "from_nplike", "xbuffer_scalar", "grow_storage", "large_transfers")
+GROUPS = ("from_buffer", "from_native", "copy_to_native", "extract", "views", "from_nplike", "xbuffer_scalar", "grow_storage", "large_transfers", "nplike_sequences")
 CAPMAX_Q, CAPMAX_T = 12, 20
 N_QUICK = len(KINDS) * (CAPMAX_Q + 1) * len(GROUPS)
 N_THOROUGH = len(KINDS) * (CAPMAX_T + 1) * len(GROUPS)
@@ -27,7 +27,7 @@ SHARDS = 16
 DTYPES = ["int8", "uint8", "int16", "uint16", "int32", "uint32", "int64", "uint64", "float32", "float64"]
 SCALARS = [xo.Int8, xo.UInt8, xo.Int16, xo.UInt16, xo.Int32, xo.UInt32, xo.Int64, xo.UInt64, xo.Float32, xo.Float64]
 FLOORS = {"primitive_calls": 30000, "grow_relocations": 3000, "large_transfers": 60, "views_after_growth": 1500,
-          "nplike_swapped_sources": 2000}
+          "nplike_swapped_sources": 2000, "overlapping_self_copies": 300, "nplike_calls_on_reused_buffer": 500}
 for _k in KINDS:
     for _p in ("update_from_buffer.post_exact", "update_from_native.post_exact", "update_from_nplike.post_exact",
                "copy_to_native.post_exact", "to_bytearray.post_exact", "to_nplike.post_exact"):
@@ -93,10 +93,12 @@ def g_from_native(w, kind, cap):
     for off in range(cap + 1):
         for n in range(cap - off + 1):
             for so in range(cap - n + 1):
-                if so + n <= off or off + n <= so:
-                    b = mkbuf(kind, cap)
-                    b.update_from_native(off, b.buffer, so, n)
-                    w.count("primitive_calls")
+                # disjoint and overlapping (shifted) ranges: the bytes that were at the source position arrive
+                b = mkbuf(kind, cap)
+                b.update_from_native(off, b.buffer, so, n)
+                w.count("primitive_calls")
+                if not (so + n <= off or off + n <= so) and n:
+                    w.count("overlapping_self_copies")
 
 
 def g_copy_to_native(w, kind, cap):
@@ -221,6 +223,26 @@ def g_from_nplike(w, kind, cap):
                         if isinstance(val, np.ndarray):
                             expect(w, val.tolist() == np.array(base, dtype=sdt).reshape(val.shape).tolist(),
                                    "update_from_nplike-changes-source", "source array modified", case)
+
+
+def g_nplike_sequences(w, kind, cap):
+    """Several converting updates on ONE buffer, with shrinking item counts (whatever a primitive keeps between calls
+    must not leak into the next one); each call is judged by the whole-buffer contract."""
+    for dt in DTYPES:
+        d = np.dtype(dt)
+        sdt = "float64" if dt != "float64" else "int32"
+        for off in range(0, cap + 1, 3):
+            b = mkbuf(kind, cap)
+            for cnt in range((cap - off) // d.itemsize, -1, -1):
+                val = np.array([(i * 5 + cnt) % 90 for i in range(cnt)], dtype=sdt)
+                try:
+                    b.update_from_nplike(off, d, val)
+                except Exception as e:
+                    w.violation(f"update_from_nplike-raises:sequence:{type(e).__name__}", f"{type(e).__name__}: {e}",
+                                dict(kind=kind, cap=cap, dest=dt, src=sdt, off=off, cnt=cnt))
+                    break
+                w.count("primitive_calls")
+                w.count("nplike_calls_on_reused_buffer")
 
 
 def g_xbuffer_scalar(w, kind, cap):
@@ -363,6 +385,7 @@ def g_large_transfers(w, kind, cap):
 
 
 G["large_transfers"] = g_large_transfers
+G["nplike_sequences"] = g_nplike_sequences
 
 
 def run_case(w, rng):
